@@ -133,6 +133,16 @@ def classify_count(fx, f, bi, t):
                         if fails:
                             classes.add("COMPARED")
                             details.append("compared with the requested length; the short branch fails")
+    if not (classes & {"ACCUMULATED", "ABANDONED"}) and in_loops and _consumed_slice(f, t, tainted, in_loops):
+        # the `write_all` idiom: what was written is cut off the front of the buffer (`buf = &buf[n..]`) and the loop
+        # goes on while the buffer is not empty
+        classes.add("ACCUMULATED")
+        classes.discard("DROPPED")
+        details.append("the count is cut off the front of the buffer; the loop continues while the buffer is not empty")
+        callee = q.names(t)[1] or q.names(t)[0]
+        for h, body in in_loops:
+            if not _zero_progress_exit(f, body, tainted, h) and callee not in NONZERO:
+                classes.add("NO-ZERO-EXIT")
     if "ABANDONED" in classes:
         classes.discard("ACCUMULATED")
     if not classes:
@@ -145,6 +155,51 @@ def classify_count(fx, f, bi, t):
         details.append("the returned count is neither completed, checked nor returned" +
                        (" (it only feeds %s)" % sorted(set(sinks)) if sinks else ""))
     return classes, details
+
+
+def _consumed_slice(f, t, tainted, in_loops):
+    du = defuse(f)
+    bufs = set()
+    for a in t["args"]:
+        l = op_local(a)
+        if l is None:
+            continue
+        bufs.add(l)
+        for site, w in du.defs.get(l, []):
+            if not site.is_term and site.node["rv"]["k"] == "ref":
+                bufs.add(site.node["rv"]["pl"]["l"])
+    for l in tainted:
+        for site, how in du.uses.get(l, []):
+            if site.is_term or site.node["rv"]["k"] != "agg" or "RangeFrom" not in (site.node["rv"].get("adt") or ""):
+                continue
+            r = site.node["lhs"]["l"]
+            for s2, h2 in du.uses.get(r, []):
+                if not (s2.is_term and s2.node["k"] == "call" and "index" in (callee_path(s2.node) or callee_orig(s2.node) or "").lower()):
+                    continue
+                reach, work = set(), [s2.node["dest"]["l"]]
+                while work:
+                    x = work.pop()
+                    if x in reach:
+                        continue
+                    reach.add(x)
+                    for s3, h3 in du.uses.get(x, []):
+                        if not s3.is_term and s3.node["rv"]["k"] in ("ref", "use") and not s3.node["lhs"].get("p"):
+                            work.append(s3.node["lhs"]["l"])
+                hit = reach & bufs
+                if not hit:
+                    continue
+                for h, body in in_loops:
+                    for bi in body:
+                        tt = f.blocks[bi]["term"]
+                        if tt["k"] == "call" and (callee_orig(tt) or "").endswith(("::is_empty", "::len")) and tt["args"]:
+                            al = op_local(tt["args"][0])
+                            srcs = {al}
+                            for s4, w4 in du.defs.get(al, []):
+                                if not s4.is_term and s4.node["rv"]["k"] == "ref":
+                                    srcs.add(s4.node["rv"]["pl"]["l"])
+                            if srcs & hit:
+                                return True
+    return False
 
 
 def _early_exits(f, body, acc, tainted):
